@@ -99,14 +99,16 @@ def run(ctx):
         "writers: no other process renames, truncates or overwrites the tool's files while it runs; other processes may create "
         "new files (Ev.ext) and - plain append mode only - another O_APPEND writer (a second router of the same build: "
         "--filename-format without <TOPIC>) may append whole records with one write(2) each (Ev.extAppend; that is what fix F46 "
-        "makes every router do; on the tree without F46 two routers sharing a file is the open finding two-routers-one-file)",
-        "fin_owns_line_partial (tree without fix F47, plain append mode): every pre-existing file and every file another process "
+        "makes every router do; before F46 (/repo 85f4c48) two routers sharing a file tore each other's records: finding two-routers-one-file, fixed, replayed on every run)",
+        "fin_owns_line_this_tree needs none of the following (F46 85f4c48 + F47 efaf20c are committed, ties accept only their skeletons); "
+        "fin_owns_line_partial (tree BEFORE fix F47, plain append mode): every pre-existing file and every file another process "
         "drops is empty or ends in \"\\n\" (no writer died inside a record, no short write); unconditional with F47 "
-        "(fin_owns_line_fixed) and in O_EXCL modes (fin_owns_line_excl); refuted without (fin_owns_line_full_false, open "
-        "finding torn-tail-append); a short write(2) is not a model primitive - its effect is a torn tail in the next run's directory",
+        "(fin_owns_line_fixed) and in O_EXCL modes (fin_owns_line_excl); refuted without (fin_owns_line_full_false, "
+        "finding torn-tail-append, fixed, replayed on every run); a short write(2) is not a model primitive - its effect is a torn tail in the next run's directory",
         "tool_fin_implies_durable_partial: the consumer library does not give up (max_attempts = 0 or attempts <= "
-        "max_attempts); with the default max_attempts=5 the full tool-level statement is refuted (open finding "
-        "gives-up-after-max-attempts); all router-level theorems are unconditional",
+        "max_attempts); with go-nsq's default max_attempts=5 the full tool-level statement is refuted (finding "
+        "gives-up-after-max-attempts, fixed by F43 = /repo 924c537: main() sets cfg.MaxAttempts = 0, shipped_tool_safe; an operator's "
+        "--consumer-opt max_attempts,N re-enables the give-up); all router-level theorems are unconditional",
     ]
     ctx.rule = ("one case = one generated script (configuration: gzip, rotate-size, rotate-interval, work-dir, "
                 "skip-empty-files, max-in-flight, sync-interval, datetime format, filename format with/without <REV>; "
